@@ -2,6 +2,8 @@ import PartituraModel.Wire
 import PartituraModel.Model.Codec
 import PartituraModel.Model.CodecHist
 import PartituraModel.Model.CodecX
+import PartituraModel.Model.CodecAl
+import PartituraModel.Model.CodecSeq
 
 open Wire Model Model.Codec
 
@@ -34,6 +36,28 @@ def pPRow : P PRow := do
 def pARow : P ARow := do
   let l ← str; let s ← opt str; let p ← opt str
   pure ⟨l, s, p⟩
+
+def pIdVal : P (Option IdVal) := do
+  let t ← tok
+  match t with
+  | "-" => pure none
+  | "S" => do let s ← str; pure (some (.str s))
+  | "I" => do let n ← int; pure (some (.int n))
+  | "N" => pure (some .none)
+  | _ => P.fail
+
+def pAEntry : P AEntry := do
+  let l ← opt str; let s ← pIdVal; let p ← pIdVal
+  pure ⟨l, s, p⟩
+
+def fmtIdVal : Option IdVal → String
+  | none => "-"
+  | some (.str s) => "S:" ++ s
+  | some (.int n) => "I:" ++ fmtInt n
+  | some .none => "N"
+
+def fmtAEntry (a : AEntry) : String :=
+  fmtTuple [match a.label with | some l => "L:" ++ l | none => "-", fmtIdVal a.sid, fmtIdVal a.pid]
 
 def pTables : P (List SRow × List PRow × List ARow) := do
   let ss ← list pSRow; let ps ← list pPRow; let al ← list pARow
@@ -247,6 +271,33 @@ def handle (ts : List String) : String :=
   | "o2n" :: rest =>
     orErr <| (run (do let w ← list rat; let gs ← list (list nat); pure (w, gs)) rest).bind fun (w, gs) =>
       (toNotewise w gs).map fmtRats
+  -- ---- round 6: alignments of any form
+  | "msa" :: rest =>
+    orErr <| (run (do let ss ← list pSRow; let ps ← list pPRow; let al ← list pAEntry; pure (ss, ps, al)) rest).map
+      fun (ss, ps, al) =>
+        let r := toMatchedScoreA ss ps al
+        fmtTuple [match r.1 with | some rows => fmtList fmtMRow rows | none => "err", fmtList fmtAEntry r.2]
+  | "mna" :: rest =>
+    orErr <| (run (do let ss ← list pSRow; let ps ← list pPRow; let al ← list pAEntry; pure (ss, ps, al)) rest).bind
+      fun (ss, ps, al) => (matchedNotesA ss ps al).map fmtPairs
+  | "decc" :: rest =>
+    orErr <| (run (do let n ← parseNorm; let fields ← list str; let ss ← list pSRow; let ids ← opt (list str)
+                      let ps ← list pParamRow; pure (n, fields, ss, ids, ps)) rest).bind fun (n, fields, ss, ids, ps) =>
+      (decodeFullC n fields ss ids (ps.map (·.2))).map fun (notes, al) =>
+        fmtTuple [fmtList (fun (r : DNote) =>
+                    fmtTuple [r.1, fmtInt r.2.1, fmtRat r.2.2.1, fmtRat r.2.2.2.1, fmtInt r.2.2.2.2]) notes,
+                  fmtList (fun (a : String × String) => fmtTuple [a.1, a.2]) al]
+  | "useq" :: rest =>
+    orErr <| (run (do let ons ← list rat; let offs ← list rat; let idx ← opt (list (list nat)); let rd ← bool
+                      pure (ons, offs, idx, rd)) rest).bind fun (ons, offs, idx, rd) =>
+      (uniqueSeq ons offs idx rd).map fun u =>
+        fmtTuple [fmtRats u.uOnset, fmtRat u.totalDur, fmtList (fmtList fmtNat) u.groups, fmtOpt fmtRats u.diff]
+  | "n2o2" :: rest =>
+    orErr <| (run (do let cols ← list (list rat); let gs ← list (list nat); pure (cols, gs)) rest).bind fun (cols, gs) =>
+      (toOnsetwise2 cols gs).map (fmtList fmtRats)
+  | "o2n2" :: rest =>
+    orErr <| (run (do let cols ← list (list rat); let gs ← list (list nat); pure (cols, gs)) rest).bind fun (cols, gs) =>
+      (toNotewise2 cols gs).map (fmtList fmtRats)
   | _ => "bad-request"
 
 def main : IO Unit := mainLoop handle
